@@ -8,6 +8,7 @@
  *       pop      lockfree_ring_buffer_trypop      (api op "pop",  v = value name or "null")
  *       pushb v  lockfree_ring_buffer_push  (blocking; recorded as a successful push)
  *       popb     lockfree_ring_buffer_pop   (blocking; recorded as a successful pop)
+ *       wait     driver-only helper thread (needed when blocking ops are used), see waiter() below
  * tracked memory: object "rb" with fields high, low, s0..s<size-1> (the slots).
  */
 #include "lockfree_ring_buffer.h"
@@ -18,6 +19,9 @@ static lockfree_ring_buffer_t* rb;
 static char vals[MAXV][8];
 static char val_names[MAXV][24];
 static int nvals;
+static int total_ops;          /* script ops of all threads except the waiter */
+static _Atomic int ops_done;   /* driver bookkeeping (not tracked) */
+static _Atomic int tick;
 
 static void* val_ptr(const char* name) {
   for (int i = 0; i < nvals; i++)
@@ -51,10 +55,28 @@ static void drv_setup(void) {
   /* pre-register every value name used by the scripts (registration is not thread safe) */
   for (int t = 0; t < t_nthreads; t++)
     for (int i = 0; i < t_nops[t]; i++)
+    {
       if (!strcmp(t_ops[t][i].op, "push") || !strcmp(t_ops[t][i].op, "pushb")) val_ptr(t_ops[t][i].a1);
+      if (strcmp(t_ops[t][i].op, "wait")) total_ops++;
+    }
   vrt_reg_obj("rb", rb, sizeof(lockfree_ring_buffer_t) + size * sizeof(void*), f, 2 + (int)size);
 }
 
+/* The runtime parks a thread that calls cpu_relax() (the blocking push/pop do) until some other
+ * thread changes memory.  The decision to relax may rest on reads that are older than the last
+ * change of the last other thread; if that thread then finishes nobody would ever wake the spinner
+ * (a false "quiescent" verdict: in reality it just retries).  The waiter thread only reads a driver
+ * counter, so the runtime classifies it as a busy-waiter and resumes it exactly when nothing else
+ * can run; it then bumps an untracked counter, which counts as progress and makes the relaxed
+ * thread eligible again.  A real stall still ends the run (step budget -> livelock oracle).
+ * The waiter touches no tracked memory. */
+static void waiter(void) {
+  while (atomic_load(&ops_done) < total_ops) {
+    atomic_fetch_add(&tick, 1);
+    for (int i = 0; i < 100 && atomic_load(&ops_done) < total_ops; i++) {
+    }
+  }
+}
 static void drv_op(int tid, const char* op, const char* a1, const char* a2, const char* a3) {
   (void)a2;
   (void)a3;
@@ -67,10 +89,14 @@ static void drv_op(int tid, const char* op, const char* a1, const char* a2, cons
     else
       r = lockfree_ring_buffer_trypush(rb, v);
     vrt_api("\"f\":\"t%d\",\"ph\":\"ret\",\"op\":\"push\",\"v\":\"%s\",\"r\":%d", tid, a1, r);
+    atomic_fetch_add(&ops_done, 1);
   } else if (!strcmp(op, "pop") || !strcmp(op, "popb")) {
     vrt_api("\"f\":\"t%d\",\"ph\":\"call\",\"op\":\"pop\",\"v\":\"null\"", tid);
     void* v = op[3] ? lockfree_ring_buffer_pop(rb) : lockfree_ring_buffer_trypop(rb);
     vrt_api("\"f\":\"t%d\",\"ph\":\"ret\",\"op\":\"pop\",\"v\":\"%s\"", tid, vrt_name_of(v));
+    atomic_fetch_add(&ops_done, 1);
+  } else if (!strcmp(op, "wait")) {
+    waiter();
   } else {
     fprintf(stderr, "unknown op %s\n", op);
     exit(64);
